@@ -585,7 +585,7 @@ def _generate12(rng, index, tier):
 
 # ---- chaos (C13) -----------------------------------------------------------------------------------------
 TEXT_OPS = ("delete", "duplicate", "swap", "unbalance-open", "unbalance-close", "quote-open", "backslash-x",
-            "backslash-u", "backslash-N", "backslash-end", "non-ascii", "nul", "strip-result", "garbage-char",
+            "backslash-u", "backslash-N", "backslash-end", "non-ascii", "surrogate", "nul", "strip-result", "garbage-char",
             "number-exp", "v2-head", "colon-in-list", "empty-arglist", "list-then-pair", "pair-then-list", "huge-int",
             "v2-numeric-name", "deep-list", "deep-chain")
 DEEP_N = (250, 1100, 2500)
@@ -682,9 +682,9 @@ def corrupt_text(text, f):
         toks[i] = toks[i] + " )"
     elif op == "quote-open":
         toks[i] = '"' + toks[i]
-    elif op in ("backslash-x", "backslash-u", "backslash-N", "backslash-end", "non-ascii", "nul"):
+    elif op in ("backslash-x", "backslash-u", "backslash-N", "backslash-end", "non-ascii", "surrogate", "nul"):
         ins = {"backslash-x": "\\x", "backslash-u": "\\u12", "backslash-N": "\\N{nope}", "backslash-end": "\\",
-               "non-ascii": "\u00e9\u4e2d", "nul": "\x00"}[op]
+               "non-ascii": "\u00e9\u4e2d", "surrogate": "\ud800", "nul": "\x00"}[op]
         if strs:
             k = strs[f["tok"] % len(strs)]
             t = toks[k]
@@ -710,7 +710,8 @@ def corrupt_text(text, f):
         extra = {"empty-arglist": "Z = Sum()", "list-then-pair": 'ZZ = Copy(InFieldName = [b, "x": 1])',
                  "pair-then-list": 'ZZ = Copy(InFieldName = ["x": 1, b, c])',
                  "huge-int": "ZZ = Copy(InFieldName = " + "9" * 5000 + ")",
-                 "deep-list": "ZZ = Sum(InFieldNames = " + "[" * 40 + "a" + "]" * 40 + ")"}[op]
+                 "deep-list": "ZZ = Sum(InFieldNames = " + "[" * (40, 1000, 3000)[f["tok2"] % 3] + "a" +
+                              "]" * (40, 1000, 3000)[f["tok2"] % 3] + ")"}[op]
         depth, ends = 0, []
         for k in sig:
             if toks[k] in "([":
@@ -1387,6 +1388,8 @@ def _execute13(sc):
     undecodable = False
     for f in faults:
         if f["kind"] == "text":
+            if f["op"] == "surrogate" and sc["route"] == "cli":
+                f = dict(f, op="non-ascii")      # a file cannot deliver a lone surrogate, only a caller of from_source can
             new = corrupt_text(text, f)
             res.configured("text-" + f["op"])
             if new != text:
